@@ -506,6 +506,34 @@ func (e *Engine) seqOfSlice(fr *Frame, s *State, v Value, pos string) *Term {
 	if len(sl.P.Alts) == 0 {
 		return e.st.SeqEmpty()
 	}
+	// merged slice: each alternative is nil (empty) or a whole blob; the length term must agree
+	{
+		var seq, ln *Term
+		ok := true
+		for i := len(sl.P.Alts) - 1; i >= 0; i-- {
+			a := sl.P.Alts[i]
+			var as, al *Term
+			switch {
+			case a.Obj == nil:
+				as, al = e.st.SeqEmpty(), e.st.BVu(0, e.intw)
+			case a.Obj.Kind == ObjBlob && a.Off == 0:
+				as, al = a.Obj.Blob.Seq, a.Obj.Blob.Len
+			default:
+				ok = false
+			}
+			if !ok {
+				break
+			}
+			if seq == nil {
+				seq, ln = as, al
+			} else {
+				seq, ln = e.st.Ite(a.G, as, seq), e.st.Ite(a.G, al, ln)
+			}
+		}
+		if ok && (ln == sl.Len || (e.feasCheck != nil && !e.feasCheck([]*Term{e.st.Not(e.st.Eq(ln, sl.Len))}))) {
+			return seq
+		}
+	}
 	panic(unsupported("hash input from symbolic-length non-blob slice at %s", pos))
 }
 
